@@ -25,7 +25,7 @@ claim("C03", "E1-kvmodel", "exploration", "differential runtime monitor vs per-v
 HOOK_COMMITS.append("96b9fde verif hook H1: iavl ImmutableTree.VerifStructure")
 
 MSNOTE = E1NOTE + "; multistore driven directly (no ABCI app); MemDB unless stated"
-claim("C04", "E1-kvmodel", "exploration", "differential runtime monitor: reopen-from-DB vs recorded commit IDs and per-version reference maps; never-reopened replica twin",
+claim("C04", "E1-kvmodel", "exploration", "differential runtime monitor: reopen-from-DB vs recorded commit IDs and per-version reference maps; never-reopened replica twin; replay of later blocks from every fourth retained version on a DB copy",
       "generated block histories on the real rootmulti/IAVL stores; store objects rebuilt over the same DB (MemDB and on-disk goleveldb) at random points and at every version; LastCommitID, per-substore hashes and full contents compared with what was observed before closing and with a replica that never reopened; held-on-observed",
       MSNOTE, "DESIGN.md §4 C04")
 claim("C06", "E1-kvmodel", "exploration", "twin-run differential monitor (with / without / with noisy transient writes, reversed mounting, interleaved reads) + per-commit invariants",
@@ -78,10 +78,10 @@ ENGINES[-2]["serves_properties"] += ["C23", "C28", "C36"]
 claim("C23", "E3-chain", "exploration", "per-transaction record-level oracle (node/application record before vs after every DeliverTx) over generated edit-stake transactions, modern and feature-transition profiles",
       "edit-stake messages with lower/equal/same-bin/higher amounts, changed chains, URL, output address and delegators, signed by operator, output address or stranger, against staked, jailed and waiting nodes, before and after the output-edit and delegator features activate; the documented immutability rules are asserted on the stored record; held-on-observed",
       TXNOTE, "DESIGN.md §4 C23")
-claim("C28", "E3-chain", "exploration", "per-transaction oracle on observed pre-state admission conditions and post-state record (reference MaxRelays from stored params) for application stake/transfer",
+claim("C28", "E3-chain", "exploration", "per-transaction oracle on observed pre-state admission conditions and post-state record (reference MaxRelays from stored params) for application stake/transfer; every accepted stake request (first or edit) judged on the resulting record; half of the scripts with a one-chain limit",
       "application stakes around the minimum, the chain limit, the balance and the MaxApplications limit, plus transfers by applications and non-applications; every accepted stake must have satisfied all admission conditions in the observed pre-state and produce the reference record; transfers must move the record intact; held-on-observed",
       TXNOTE, "DESIGN.md §4 C28")
-claim("C36", "E3-chain", "exploration", "per-transaction oracle over every ACL key read from chain state x signer relation (owner / owner of another key / stranger) plus DAO and upgrade actions",
+claim("C36", "E3-chain", "exploration", "per-transaction oracle over every ACL key read from chain state x signer relation (owner / owner of another key / stranger) plus DAO and upgrade actions; a rotating key (every third script gov/daoOwner) handed to another address, DAO owner replaced in a quarter of the scripts, the DAO owner read from the pre-state",
       "for every parameter key in the chain's own ACL (41 after feature activation) change-param by owner, owner-of-another-key and stranger: non-owners must leave the params store untouched, owner changes must store exactly the submitted value and nothing else; DAO transfers/burns up to and beyond the balance by owner and non-owner; exhaustive over keys, sampled values/orders",
       TXNOTE, "DESIGN.md §4 C36")
 
@@ -127,14 +127,14 @@ claim("C11", "E3-chain", "exploration", "twin-process differential + store-diges
 claim("C13", "E3-chain", "exploration", "twin-process differential: node serving historical custom queries / app.Query* / dispatch / mixed traffic vs a node that never served anything; app hashes and tx results compared for every block",
       "histories built to trigger stale-cache-then-state-change orderings (7 applications against a 5-entry LRU with constant edit-stakes, jailing, unstaking) with off-chain reads at past heights and dispatches between ABCI calls; any divergence is a witness; the application-LRU leak found this way was repaired (fix: commit); relay handling is covered by C34/C35; held-on-observed",
       E3NOTE, "DESIGN.md §4 C13")
-claim("C16", "E3-chain", "exploration", "per-transaction pre/post oracle on second deliveries: identical bytes and 6 semantics-preserving protobuf re-encodings (validated with the app's own decoder) in the same and later blocks",
+claim("C16", "E3-chain", "exploration", "per-transaction pre/post oracle on second deliveries: identical bytes and 6 semantics-preserving protobuf re-encodings (validated with the app's own decoder) in the same and later blocks; plus identical bytes after a first delivery that failed in its handler having paid the fee",
       "for 6 message kinds x 7 resubmission classes x 4 placements a freshly signed tx is delivered, then resubmitted; the second delivery must be rejected with all store digests unchanged; identical bytes are rejected, all six re-encodings execute again: listed as 12 known findings (class x placement); legacy amino era not exercised",
       TXNOTE, "DESIGN.md §4 C16")
 ENGINES[-3]["serves_properties"] += ["C24", "C25"]
 claim("C24", "E3-chain", "exploration", "transition monitor over consecutive committed snapshots of chaos histories + generator ledger (causes, session boundaries, completion times, payouts)",
       "every Staked->Unstaking transition needs a cause (accepted begin-unstake or forced-unstake condition) and a session boundary; applications only by their own request; no unstaking record survives its completion time or disappears early; the stake is returned to the output/application address in the completion block (exactly, when no other ledger flow or same-block slash can interfere); staked records never vanish; held-on-observed",
       E3NOTE, "DESIGN.md §4 C24")
-claim("C25", "E3-chain", "exploration", "monitor on post-BeginBlock / per-tx snapshots of chaos histories: slash accounting, below-minimum => jailed+queued, dispatch results vs jailed set, pre-state of every accepted unjail",
+claim("C25", "E3-chain", "exploration", "monitor on post-BeginBlock / per-tx snapshots of chaos histories: slash accounting, below-minimum => jailed+queued, dispatch results vs jailed set, pre-state of every accepted unjail AND the monitor's own record of the jail deadline set when each jail began",
       "downtime and double-sign slashes (including ones capped at the whole stake) must burn exactly what the nodes lose, from pool and supply alike; nodes under the minimum are jailed and queued to unstake at every observed point; ~2000 dispatches per run never list a jailed node; every accepted unjail had an authorized signer, the minimum stake and an expired jail period; held-on-observed",
       E3NOTE + "; per-tx snapshots as in TXNOTE", "DESIGN.md §4 C25")
 HOOK_COMMITS.append("8945e6b verif hook H2: Newton-iteration counter in types/decimal.go ApproxRoot (types/verif_on.go, types/verif_off.go)")
@@ -142,12 +142,12 @@ ENGINES[-3]["serves_properties"] += ["C37", "C43"]
 claim("C37", "E3-chain", "exploration", "reference-schedule monitor on the codec activation predicates probed inside the node after every block + restart twin (fresh OS process over the same on-disk DBs vs never-restarted process)",
       "generated sequences of upgrade messages (feature-only, version upgrades carrying features, duplicates, re-scheduling, non-owner) on the mainnet-style bootstrap; every predicate value on a height grid and the stored gov/upgrade parameter compared with a reference schedule; the node is ended at a PRNG-chosen height and a new process must derive the same heights/schedule and continue with identical app hashes; held-on-observed; five known findings share one root cause (message delivered below the derived codec-upgrade height)",
       E3NOTE + "; chain heights stay far below 30024, where the codec-upgrade height is derived rather than constant", "DESIGN.md §4 C37")
-claim("C43", "E3-chain", "exploration", "export/import round-trip monitor: decoded exported genesis vs decoded live stores, validated by the app's own validators, then a new process initialised from it continues in lockstep with the source node",
+claim("C43", "E3-chain", "exploration", "export/import round-trip monitor: decoded exported genesis vs decoded live stores, validated by the app's own validators, the exported document decoded with the modules' own genesis decoders and compared record by record, then a new process initialised from it (every observed refusal class keyed separately)",
       "chaos histories (stake/unstake/jail/slash/param changes/DAO) exported at PRNG-chosen heights: every account, validator (incl. jailed/unstaking), application, parameter, signing info and claim of the live state must appear in the export and vice versa, module ValidateGenesis must accept it, and an importer process fed the same following blocks must report the same record-level state transitions; held-on-observed; two known findings (importer exits)",
       E3NOTE, "DESIGN.md §4 C43")
 ENGINES[-3]["serves_properties"] += ["C31", "C32"]
 CLNOTE = E3NOTE + "; claim/proof transactions are built inside the node process from committed blocks only (chain.DynTx); session membership reference = internal/ref/sessionref over per-block snapshots; leaf-selection reference = chain.RefLeafIndex (own SHA3)"
-claim("C31", "E3-chain", "exploration", "runtime monitor over claim/proof histories for every valid (blocks-per-session, submission-window) pair: what the claim author could know (selector block committed or not) is observed inside the node when each claim is built; paid proofs compared with a reference leaf selection",
+claim("C31", "E3-chain", "exploration", "runtime monitor over claim/proof histories for every valid (blocks-per-session, submission-window) pair: what the claim author could know (selector block committed or not) is observed inside the node when each claim is built; paid proofs compared with a reference leaf selection; half of the cases with dispatch traffic filling the node's session cache",
       "15 parameter pairs x PRNG repetitions; claims at every kind of height relative to session end and proof height, including claims whose only genuine leaf is placed at a predicted index; oracle: no accepted claim was written after its selector hash was committed, paid index == reference formula in [0,total), shifted indexes never paid; two known findings (claims are still accepted at the proof height itself); held-on-observed otherwise",
       CLNOTE, "DESIGN.md §4 C31")
 claim("C32", "E3-chain", "exploration", "per-transaction pre/post oracle on the claims store and the supply over generated claim/proof lifecycles (16 claim classes x 13 proof classes) with an independent session-membership reference",
@@ -160,7 +160,7 @@ claim("C26", "E6-ref", "exploration", "per-account conservation monitor on the r
 ENGINES.append({"name": "E5-relays", "path": "internal/chain/relayops.go + internal/checks/c34_c35_relays.go", "serves_properties": ["C34", "C35"],
   "kind_free_text": "relay harness: PocketCoreApp.HandleRelay on a full node process against a loopback hosted-chain stub; sequential single-defect relays, concurrent bursts with sealer goroutine, evidence read-out, race-detector build"})
 RLNOTE = E3NOTE + "; hosted chain = loopback HTTP stub; the module's automatic claim sender is kept out by the Tendermint stub (it only tells the relay handler the node is caught up); interleavings are whatever the Go scheduler produces with 2..16 goroutines on this machine"
-claim("C34", "E5-relays", "exploration", "concurrency monitor: bursts of identical and distinct relays through HandleRelay from 2..16 goroutines (40% racing with an emulated claim sender sealing the evidence), evidence store read out afterwards; same workload in a race-detector build (GORACE log, reports keyed by innermost pocket-core frames)",
+claim("C34", "E5-relays", "exploration", "concurrency monitor: bursts of identical and distinct relays through HandleRelay from 2..16 goroutines (40% racing with an emulated claim sender sealing the evidence), evidence store read out afterwards; same workload in a race-detector build (GORACE log, reports keyed by innermost pocket-core frames); end-to-end cases in paced wall-clock windows where the node's own claim and proof senders run and their transactions are put on chain",
       "~250 bursts / ~10000 relays per quick run: no proof stored twice, counter == length <= the application's allowance, every call that returned a signed response before the sealer began is in the evidence, served only if in the reference session; race reports touching the evidence store are violations, others are listed; on the tree before fix b626c2d every run reported lost and duplicated proofs and AddProof/IsUniqueProof/ToProto races; held-on-observed after it",
       RLNOTE, "DESIGN.md §4 C34, §11")
 claim("C35", "E5-relays", "exploration", "single-defect mutation monitor on HandleRelay: for every application x chain session a valid relay, 23 classes of relays with exactly one condition violated (re-signed so that nothing else is wrong), duplicates and over-allowance relays; evidence store read before/after each call; independent session-membership reference",
